@@ -76,7 +76,10 @@ IoRead(st, a, fx, env) ==
   IN CASE d.k = "kbd" ->
             IF a = KBSR THEN some(st, (IF KbdReady(st, env) THEN 32768 ELSE 0) + (IF d.ie THEN 16384 ELSE 0))
             ELSE IF a = KBDR THEN
-                 IF env.lockK \/ st.kbd = <<>> THEN none
+                 \* deviation DevKbdDataReadWhileLocked: try_write fails, the read is not answered
+                 \* and the program sees the stale memory mirror
+                 IF env.lockK /\ fx THEN [st |-> [st EXCEPT !.devn = @ \cup {"DevKbdDataReadWhileLocked"}], some |-> FALSE, v |-> 0]
+                 ELSE IF env.lockK \/ st.kbd = <<>> THEN none
                  ELSE IF fx THEN some([st EXCEPT !.kbd = Tail(@)], Head(st.kbd))
                  ELSE some(st, Head(st.kbd))
             ELSE none
@@ -92,7 +95,9 @@ IoWrite(st, a, v, env) ==
   IN CASE d.k = "kbd" ->
             IF a = KBSR THEN res([st EXCEPT !.devs[id + 1].ie = (Bit(v, 14) = 1)], TRUE) ELSE res(st, FALSE)
        [] d.k = "disp" ->
-            IF a = DDR /\ ~env.lockD THEN res([st EXCEPT !.disp = Append(@, v % 256)], TRUE) ELSE res(st, FALSE)
+            \* deviation DevDisplayWriteWhileLocked: try_write fails and the byte is dropped
+            IF a = DDR /\ env.lockD THEN res([st EXCEPT !.devn = @ \cup {"DevDisplayWriteWhileLocked"}], FALSE)
+            ELSE IF a = DDR THEN res([st EXCEPT !.disp = Append(@, v % 256)], TRUE) ELSE res(st, FALSE)
        [] d.k = "reg" -> res([st EXCEPT !.devs[id + 1].val = v], TRUE)
        [] OTHER -> res(st, FALSE)
 
